@@ -3,7 +3,10 @@ use super::core::*;
 use super::queue_state::*;
 use super::job_queue::*;
 
+#[cfg(not(feature = "verif-hooks"))]
 use std::sync::*;
+#[cfg(feature = "verif-hooks")]
+use crate::verif::sync::*;
 use futures::task::{ArcWake};
 
 ///
